@@ -48,6 +48,10 @@ func c08Gen(t *rapid.T) c08Plan {
 		svc := vfSvcNames[i]
 		spec := vfSvcSpec{Name: svc, Hosts: []string{svc + ".test"}}
 		opt := vfOpts{ErrPages: rapid.IntRange(0, 2).Draw(t, "err-pages")}
+		if rapid.IntRange(0, 2).Draw(t, "prefixed") == 0 {
+			spec.Prefixes = []string{"/app"}
+			opt.Strip = rapid.Bool().Draw(t, "strip")
+		}
 		if rapid.IntRange(0, 3).Draw(t, "hp") == 0 {
 			opt.HealthPath = "/health"
 		}
@@ -215,12 +219,18 @@ func c08Run(t *testing.T, p c08Plan) (res vfResult) {
 				s := m.Svcs[name]
 				host := s.Spec.Hosts[0]
 				hp := s.Opt.healthPath()
+				pfx := ""
+				if pp := s.Spec.normPrefixes()[0]; pp != "/" {
+					pfx = pp
+				}
 				before := received()
 				type probe struct {
 					method, path string
 				}
-				probes := []probe{{"GET", "/"}, {"GET", "/some/page?x=1"}, {"POST", "/"}, {"POST", hp}, {"GET", hp}, {"GET", hp + "/"}, {"GET", hp + "?q=1"}, {"HEAD", hp}}
+				probes := []probe{{"GET", pfx + "/"}, {"GET", pfx + "/some/page?x=1"}, {"POST", pfx + "/"}, {"POST", pfx + hp}, {"GET", pfx + hp}, {"GET", pfx + hp + "/"},
+					{"GET", pfx + hp + "?q=1"}, {"HEAD", pfx + hp}}
 				for _, pr := range probes {
+					// "GET requests whose path is exactly its health-check path": the path as the client sent it
 					isHealth := pr.method == "GET" && strings.SplitN(pr.path, "?", 2)[0] == hp
 					if s.State == "paused" && !isHealth {
 						continue // held; C07's business
